@@ -235,13 +235,23 @@ pub fn cd_of(s: &str) -> R<CdnCode> {
     })
 }
 
-/// The raw 32-bit word of a bitmask AVP (its only field is private): from Debug.
+/// The raw 32-bit word of a bitmask AVP (its only field is private): the last
+/// integer in its derived Debug text, whatever the field is called.
 fn debug_word<T: std::fmt::Debug>(x: &T) -> String {
     let s = format!("{:?}", x);
-    match s.find("data: ") {
-        Some(i) => s[i + 6..].chars().take_while(|c| c.is_ascii_digit()).collect(),
-        None => format!("?{s}"),
+    let mut last: Option<String> = None;
+    let mut cur = String::new();
+    for c in s.chars() {
+        if c.is_ascii_digit() {
+            cur.push(c);
+        } else if !cur.is_empty() {
+            last = Some(std::mem::take(&mut cur));
+        }
     }
+    if !cur.is_empty() {
+        last = Some(cur);
+    }
+    last.unwrap_or_else(|| format!("?{s}"))
 }
 
 fn opt_hex(o: &Option<String>) -> String {
